@@ -523,16 +523,17 @@ def solve(constraints, want_model=False, timeout_ms=20000):
 
 
 # -------------------------------------------------------------- path condition
-def relevant_pc(p):
-    """non-affine constraints sharing (transitively) base support with p"""
-    sup = base_support([p], closed=True)
+def relevant_pc(p, closed=True):
+    """non-affine constraints sharing (transitively) base support with p (closed: also through the solved forms of
+    eliminated atoms met below gate definitions - needed for counter-models, not for `unsat`)"""
+    sup = base_support([p], closed=closed)
     rel = []
     rest = list(C.pc_other)
     changed = True
     while changed:
         changed = False
         for q in list(rest):
-            s = base_support([q], closed=True)
+            s = base_support([q], closed=closed)
             if s & sup:
                 sup |= s
                 rel.append(q)
